@@ -15,14 +15,23 @@ ASSUME = [
     'kernel lemma L-HAZ on one call of the real _wave_eval: operand waveforms are arbitrary waveforms conforming to an abstract value (0/1: no transition; R/F: matching initial/final, odd number <= K of transitions at '
     'arbitrary symbolic times; P/N: even number); 8-valued result computed by the real LogicSim(m=8) on the one-gate circuit; all delays symbolic',
     'lifting to circuits: conformance is preserved gate by gate (the lemma\'s conclusion is the next gate\'s premise) - paper induction, confirmed end-to-end on small circuits with stimuli over {0,1,R,F}',
+    'boundary lemma on the real s_to_c (CPU and GPU kernel): symbolic old slot content, every value 0/1/R/F/X',
     'float model and bounds as C03',
 ]
 
 
 def run(tier, seed):
     J = c03.kernel_jobs(tier, frozenset({'WF', 'HAZ'}))
+    if tier == 'quick':          # one input carries a pulse (two transitions), the others are static: P/N operands of the 3- and 4-input primitives
+        for name in wave.LUTS:
+            ar = wave.lut_arity(name)
+            if ar < 3: continue
+            for pin in range(ar):
+                Ks = tuple(2 if k == pin else 0 for k in range(ar))
+                for inits in itertools.product((0, 1), repeat=ar): J.append((name, Ks, inits, 8, None, False, frozenset({'WF', 'HAZ'})))
     J.sort(key=lambda j: -(sum(j[1]) + 1) ** len(j[1]))
     rep = common.pmap(wave.kernel_job, J, chunksize=1)
+    rep.merge(common.pmap(wsim.boundary_job, wsim.boundary_jobs(), chunksize=4))     # the 0/1/R/F stimulus is encoded as the waveform the lemma's premise assumes, whatever the slot held before
     E = []
     for optt in ((), (('c_reuse', True),), (('c_reuse', True), ('strip_forks', True))):
         for j in wsim.e2e_jobs(tier, seed, {'HAZ'}, light=(optt != ())):
@@ -38,11 +47,11 @@ def run(tier, seed):
     cov = {
         'states': int(rep.counts['paths']), 'transitions': int(rep.counts['branches']) + int(rep.counts['paths']),
         'traces_validated_against_impl': int(rep.counts['concolic_runs']),
-        'obligations': int(rep.counts['obligations']), 'discharged': int(rep.counts['discharged']), 'kernel_jobs': len(J), 'e2e_jobs': len(E), 'e2e_paths': int(rep.counts['e2e_paths']),
+        'obligations': int(rep.counts['obligations']), 'discharged': int(rep.counts['discharged']), 'kernel_jobs': len(J), 'boundary_paths': int(rep.counts['boundary_paths']), 'e2e_jobs': len(E), 'e2e_paths': int(rep.counts['e2e_paths']),
         'abstract_tuples_evaluated': len(wave._O8),
         'explanation': 'states = completed symbolic paths of the real kernel / whole simulators; per path the claim is evaluated for every abstract tuple the stimulus shape conforms to',
         'functions_encoded': common.fn_sha(wave_sim._wave_eval, LogicSim.c_prop, logic.bp8v_and, logic.bp8v_or, logic.bp8v_xor, logic.bp8v_not),
-        'bounds': {'K per input': {'arity1': 4, 'arity2': 2 if tier == 'quick' else 3, 'arity3': 1 if tier == 'quick' else 2, 'arity4': 1}, 'caps': [4, 8, 16], 'e2e options': ['default', 'c_reuse', 'c_reuse+strip_forks'], 'simulators': ['WaveSim', 'WaveSimCuda']},
+        'bounds': {'K per input': {'arity1': 4, 'arity2': 2 if tier == 'quick' else 3, 'arity3': 1 if tier == 'quick' else '2 (<= 4 overall)', 'arity4': 1, 'arity3+4 extra (quick)': 'one input K=2, the others static'}, 'caps': [4, 8, 16], 'e2e options': ['default', 'c_reuse', 'c_reuse+strip_forks'], 'simulators': ['WaveSim', 'WaveSimCuda']},
         'exhaustive': False,
         'summary': f'{len(J)} kernel jobs, {rep.counts["paths"]} paths, {rep.counts["obligations"]} obligations, {rep.counts["discharged"]} discharged',
     }
